@@ -45,9 +45,11 @@ func tsOf(c constel, u time.Time) uint {
 // msmFrameWithTs is a CRC-valid frame of an MSM type with the given 30-bit timestamp and an
 // otherwise empty (all-zero) MSM body.
 func msmFrameWithTs(typ int, station uint, ts uint) []byte {
-	p := make([]byte, 24)
+	// payload lengths from the shortest that holds the timestamp (7 bytes = 56 bits >= 54) upwards,
+	// chosen by the timestamp so that the frame is a function of its arguments
+	p := make([]byte, []int{7, 8, 9, 24, 24, 24}[ts%6])
 	v := uint64(typ)<<52 | uint64(station&0xfff)<<40 | uint64(ts&0x3fffffff)<<10
-	for i := 0; i < 8; i++ {
+	for i := 0; i < 8 && i < len(p); i++ {
 		p[i] = byte(v >> (56 - 8*uint(i)))
 	}
 	return mkFrame(p)
